@@ -485,9 +485,12 @@ struct Driver {
     void add_hex_V(const Hex& h) {
         bool mir = rng.chance(1, 20);       // mirrored vertex order: faces shared with a neighbour are found from the wrong side
         std::array<int, 8> v = handles_of(mir ? mirror(h) : h);
-        Op op; op.name = "hex_add_cell_v"; op.a.push_back(mir || rng.chance(2, 3) ? 1 : 0); for (int x : v) op.a.push_back(x);
+        // a face of the hex that exists with its outward side already in a live cell: only the checked call is in contract
+        bool occupied = false;
+        for (int f = 0; f < 6; ++f) { int hf = find_hf_by_verts(face_cycle(v, f)); if (hf >= 0 && hf_in_live_cell(hf)) occupied = true; }
+        Op op; op.name = "hex_add_cell_v"; op.a.push_back(mir || occupied || rng.chance(2, 3) ? 1 : 0); for (int x : v) op.a.push_back(x);
         bool fq = force_queries; force_queries = true;
-        exec(op, mir || !full_bu());
+        exec(op, mir || occupied || !full_bu());
         force_queries = fq;
     }
     // the 8 vertices of a live cell whose six outer halffaces are free, seen from outside: the "outside cell"
